@@ -42,6 +42,11 @@ def cases(tier):
         cs.append(dict(consumers=[[["F", 1], ["L"]], KINDS[other]], window=2 if q else 3))
         cs.append(dict(consumers=[[["F", 2.5], ["L"]], KINDS[other]], window=2 if q else 3, dmax=2.5))
     cs.append(dict(consumers=[[["F", 1], ["L"]]], window=3 if q else 4))
+    # other time scales (one unit = 2 microseconds / one week) and masked payloads
+    for unit in (2, 7 * 86400 * 10**6):
+        cs.append(dict(consumers=[[], [["L"]]], window=2, unit_us=unit))
+        cs.append(dict(consumers=[[["S", 2]], [["F", 1]]], window=2, unit_us=unit))
+    cs.append(dict(consumers=[[], [["L"]]], window=2, payload="masked"))
     # fan-out behind a shared pass-through adapter (one target at the output, several registered end points)
     for a, b in itertools.combinations_with_replacement(["direct", "scale", "linear"], 2):
         cs.append(dict(consumers=[KINDS[a], KINDS[b]], trunk=[["S", 2]], window=2 if q else 3))
